@@ -65,6 +65,9 @@ type RPC struct {
 	// BadRequest: a unary call whose request the encoding cannot marshal (Invoke fails before anything of
 	// the call except, possibly, its metadata and a close was written).
 	BadRequest bool
+	// BadResponse: a unary call whose response the encoding cannot unmarshal (the request goes out, the handler
+	// answers, Invoke fails while decoding the answer).
+	BadResponse bool
 }
 
 const (
@@ -598,10 +601,14 @@ func (w *World) StartClient(k int) *Actor {
 			var enc drpc.Encoding = w.Enc
 			if spec.BadRequest {
 				enc = BadMarshalEnc{}
+			} else if spec.BadResponse {
+				enc = FailEnc{Msg: "harness: cannot decode the response"}
 			}
 			err := w.Conn.Invoke(ctx, rpc, enc, &in, &out)
 			if err == nil && spec.BadRequest {
 				w.Violate(fmt.Sprintf("rpc %d: Invoke of a request that cannot be marshalled returned nil", k))
+			} else if err == nil && spec.BadResponse {
+				w.Violate(fmt.Sprintf("rpc %d: Invoke whose response cannot be unmarshalled returned nil", k))
 			} else if err == nil {
 				w.checkRecv(k, 's', out, r)
 			}
